@@ -298,35 +298,65 @@ func lsnListenerArg(addr string, l lsnL, src string) string {
 	return addr + ";" + strings.Join(opts, ";")
 }
 
-func runLsnScn(sc lsnScn, srv *ldServer, prefix, backend string) (lsnScnOut, error) {
-	out := lsnScnOut{Answers: [][][]int{}}
+// lsnCheck says whether a scenario is one this stream can stage (the shrinker produces others).
+func lsnCheck(sc lsnScn) error {
 	if len(sc.Sources) == 0 || len(sc.Sources) > 3 || len(sc.Listeners) == 0 || len(sc.Listeners) > 5 || len(sc.Reqs) == 0 || len(sc.Reqs) > 8 {
-		return out, fmt.Errorf("bad listeners scenario")
+		return fmt.Errorf("bad listeners scenario")
 	}
 	nUI := 0
 	for _, l := range sc.Listeners {
 		if l.Src < 0 || l.Src >= len(sc.Sources) || !lsnStrictOK(l.Strict) {
-			return out, fmt.Errorf("bad listener")
+			return fmt.Errorf("bad listener")
 		}
 		switch l.Proto {
 		case "", "https", "grpcs", "prometheus", "tcp", "https+tcp+sni":
 		default:
-			return out, fmt.Errorf("bad proto")
+			return fmt.Errorf("bad proto")
 		}
 		if l.UI {
 			nUI++
 			if l.Proto != "" && l.Proto != "https" {
-				return out, fmt.Errorf("the UI listener speaks https")
+				return fmt.Errorf("the UI listener speaks https")
 			}
 		}
 	}
 	if nUI > 1 || nUI == len(sc.Listeners) {
-		return out, fmt.Errorf("one UI listener at most, one proxy listener at least")
+		return fmt.Errorf("one UI listener at most, one proxy listener at least")
 	}
 	for _, r := range sc.Reqs {
 		if r != "" && !sniOK(r) {
-			return out, fmt.Errorf("name cannot travel as SNI")
+			return fmt.Errorf("name cannot travel as SNI")
 		}
+	}
+	for _, s := range sc.Sources {
+		if _, _, err := lsnBuild(s.Certs); err != nil {
+			return err
+		}
+		if len(s.Epoch2) > 0 {
+			if s.Type != "path" {
+				return fmt.Errorf("only a path source goes through a second epoch here")
+			}
+			if _, _, err := lsnBuild(s.Epoch2); err != nil {
+				return err
+			}
+		}
+		switch s.Type {
+		case "path", "http":
+		case "file":
+			if len(s.Certs) != 1 {
+				return fmt.Errorf("a file source holds one certificate")
+			}
+		default:
+			return fmt.Errorf("unknown source type %q", s.Type)
+		}
+	}
+	return nil
+}
+
+func runLsnScn(sc lsnScn, srv *ldServer, prefix, backend string, lastTry bool) (lsnScnOut, error) {
+	out := lsnScnOut{Answers: [][][]int{}}
+	if err := lsnCheck(sc); err != nil {
+		return out, err
 	}
 	bin, err := lsnFabio()
 	if err != nil {
@@ -530,6 +560,10 @@ func runLsnScn(sc lsnScn, srv *ldServer, prefix, backend string) (lsnScnOut, err
 		}
 		out.Ready = out.Ready && ok
 	}
+	if !out.Ready && !lastTry {
+		// most likely the machine: start the scenario again; the last attempt reports what it sees
+		return out, fmt.Errorf("a listener did not present the first set of its source within 20 s: %s", tailStr(logb.String(), 300))
+	}
 
 	ask := func(epoch int) ([][]int, error) {
 		res := make([][]int, len(sc.Listeners))
@@ -655,6 +689,14 @@ func runLsn(raw json.RawMessage) (interface{}, error) {
 	if len(in.Scns) == 0 || len(in.Scns) > 12 {
 		return nil, fmt.Errorf("bad listeners case")
 	}
+	for _, sc := range in.Scns {
+		if err := lsnCheck(sc); err != nil {
+			return nil, err
+		}
+	}
+	if _, err := lsnFabio(); err != nil {
+		return nil, err
+	}
 	srv, err := newLdServerListen()
 	if err != nil {
 		return nil, err
@@ -694,7 +736,16 @@ func runLsn(raw json.RawMessage) (interface{}, error) {
 		wg.Add(1)
 		go func(i int) {
 			defer wg.Done()
-			outs[i], errs[i] = runLsnScn(in.Scns[i], srv, "c"+strconv.Itoa(i)+"-", bl.Addr().String())
+			// a scenario that is well-formed (checked above) can only fail for reasons of the environment - the child
+			// did not come up in time, a reserved port was taken, a listener could not be reached on a machine that
+			// runs many checks at once: it is started again, three times at most
+			for try := 0; try < 3; try++ {
+				outs[i], errs[i] = runLsnScn(in.Scns[i], srv, "c"+strconv.Itoa(i)+"t"+strconv.Itoa(try)+"-", bl.Addr().String(), try == 2)
+				if errs[i] == nil {
+					break
+				}
+				time.Sleep(time.Duration(try+1) * time.Second)
+			}
 		}(i)
 	}
 	wg.Wait()
